@@ -106,3 +106,108 @@ Proof.
   pose proof (fetch_exact LogCls cache ver items raw crc extra l Hraw Hok Hc Hn Hl) as H.
   destruct (fetch LogCls cache ver (mkDev raw crc extra) l) as [s o]. now split.
 Qed.
+
+(* ================================================================ across sessions =========================
+   The guard seen over the life of ONE Log object.  Session level: refresh_toc (toc := None, reset request sent),
+   a reply to a reset request arriving (genuine, duplicated, or left over from an earlier connection attempt),
+   disconnected.  A download start is LEGITIMATE iff a refresh_toc of the current connection attempt is waiting
+   for its reset reply at that moment (then the version, the cache and the completion callback are the current
+   ones; a left-over reply arriving in that window is indistinguishable from the genuine one and has the same
+   effect).  Three guards:
+     GFixed    `not self.toc and self._toc_refresh_pending`, pending cleared on disconnected   (fix F03c)
+     GHead     `not self.toc` — the Toc of the previous session is kept and keeps the guard closed, but a session
+               abandoned between refresh_toc and its reset reply leaves toc = None
+     GCleared  `not self.toc` with toc := None on disconnected (mirroring Param) *)
+Inductive gev := GRefresh | GReset | GDisconnect.
+Inductive gvar := GFixed | GHead | GCleared.
+
+Record gst := mkG { g_toc : bool;           (* self.toc is a Toc object *)
+                    g_pending : bool;       (* a refresh_toc of this attempt waits for its reset reply *)
+                    g_starts : list bool }. (* downloads started so far: was each legitimate? *)
+
+Definition g_init : gst := mkG false false [].
+
+Definition gstep (v : gvar) (s : gst) (e : gev) : gst :=
+  match e with
+  | GRefresh => mkG false true (g_starts s)
+  | GReset =>
+      let opened := match v with GFixed => negb (g_toc s) && g_pending s | _ => negb (g_toc s) end in
+      if opened then mkG true false (g_starts s ++ [g_pending s]) else s
+  | GDisconnect => mkG (match v with GCleared => false | _ => g_toc s end) false (g_starts s)
+  end.
+
+Definition grun (v : gvar) (evs : list gev) : gst := fold_left (gstep v) evs g_init.
+
+Definition count_refresh (evs : list gev) : nat :=
+  List.length (filter (fun e => match e with GRefresh => true | _ => false end) evs).
+
+(* with the fixed guard: for EVERY history (any number of sessions, resets left over from anywhere, disconnects at
+   any point) every download start is legitimate, and there is at most one per refresh_toc *)
+Lemma fixed_guard_all_legit : forall evs s,
+  Forall (fun b => b = true) (g_starts s) ->
+  Forall (fun b => b = true) (g_starts (fold_left (gstep GFixed) evs s)).
+Proof.
+  induction evs as [|e evs IH]; intros s H; [exact H|]. cbn [fold_left]. apply IH.
+  destruct e; cbn [gstep g_starts]; try exact H.
+  destruct (negb (g_toc s) && g_pending s) eqn:E; [|exact H].
+  cbn [g_starts]. apply Forall_app. split; [exact H|]. constructor; [|constructor].
+  apply andb_true_iff in E. tauto.
+Qed.
+
+Lemma count_refresh_cons e evs :
+  count_refresh (e :: evs) = ((match e with GRefresh => 1 | _ => 0 end) + count_refresh evs)%nat.
+Proof. destruct e; reflexivity. Qed.
+
+Lemma fixed_guard_once_per_refresh : forall evs s,
+  (List.length (g_starts (fold_left (gstep GFixed) evs s)) + (if g_pending (fold_left (gstep GFixed) evs s) then 1 else 0)
+   <= List.length (g_starts s) + (if g_pending s then 1 else 0) + count_refresh evs)%nat.
+Proof.
+  induction evs as [|e evs IH]; intros s; [cbn; lia|].
+  rewrite count_refresh_cons. cbn [fold_left]. specialize (IH (gstep GFixed s e)).
+  destruct e; cbn [gstep] in *.
+  - cbn [g_starts g_pending] in IH. destruct (g_pending s); lia.
+  - destruct (negb (g_toc s) && g_pending s) eqn:E.
+    + apply andb_true_iff in E. destruct E as [_ E]. rewrite E in *.
+      cbn [g_starts g_pending] in IH. rewrite app_length in IH. cbn [List.length] in IH. lia.
+    + lia.
+  - cbn [g_starts g_pending] in IH. destruct (g_pending s); lia.
+Qed.
+
+(* what HEAD's guard gives: all starts are legitimate as long as no connection attempt is abandoned between
+   refresh_toc and its reset reply (then the previous Toc keeps the guard closed between sessions) *)
+Definition head_inv (s : gst) : Prop := g_toc s = false -> g_pending s = true.
+
+Fixpoint head_ok (s : gst) (evs : list gev) : Prop :=
+  match evs with
+  | [] => True
+  | e :: r => (e = GDisconnect -> g_toc s = true) /\ head_ok (gstep GHead s e) r
+  end.
+
+Lemma head_guard_legit_when_no_abandon : forall evs s,
+  head_inv s -> head_ok s evs -> Forall (fun b => b = true) (g_starts s) ->
+  Forall (fun b => b = true) (g_starts (fold_left (gstep GHead) evs s)).
+Proof.
+  induction evs as [|e evs IH]; intros s Hi Hok H; [exact H|]. cbn [fold_left head_ok] in *.
+  destruct Hok as [Hd Hok]. apply IH; [|exact Hok|].
+  - destruct e; unfold head_inv; cbn [gstep].
+    + reflexivity.
+    + destruct (negb (g_toc s)) eqn:E; cbn [g_toc g_pending]; [discriminate|exact Hi].
+    + cbn [g_toc g_pending]. intros Ht. rewrite (Hd eq_refl) in Ht. discriminate.
+  - destruct e; cbn [gstep g_starts]; try exact H.
+    destruct (negb (g_toc s)) eqn:E; [|exact H]. cbn [g_starts]. apply Forall_app. split; [exact H|].
+    constructor; [|constructor]. apply Hi. now destruct (g_toc s).
+Qed.
+
+(* refutations *)
+Lemma head_guard_refuted_after_abandon :
+  g_starts (grun GHead [GRefresh; GDisconnect; GReset]) = [false] /\
+  g_starts (grun GFixed [GRefresh; GDisconnect; GReset]) = [].
+Proof. split; reflexivity. Qed.
+
+Lemma cleared_toc_refuted :
+  g_starts (grun GCleared [GRefresh; GReset; GDisconnect; GReset]) = [true; false] /\
+  g_starts (grun GHead [GRefresh; GReset; GDisconnect; GReset]) = [true] /\
+  g_starts (grun GFixed [GRefresh; GReset; GDisconnect; GReset]) = [true].
+Proof. repeat split; reflexivity. Qed.
+
+Definition enc_gst (s : gst) : list Z := [b2n (g_toc s); b2n (g_pending s)] ++ map b2n (g_starts s).
